@@ -3,7 +3,7 @@
 use crate::run::{CaseResult, Ctx, Env, Input, RunResult, Sub};
 use crate::{ensure, viol};
 use mqtt_proto::{Error, Pid};
-use std::convert::TryFrom;
+use std::convert::{TryFrom, TryInto};
 
 fn model_add(p: u16, u: u16) -> u16 {
     ((p as i64 - 1 + u as i64).rem_euclid(65_535) + 1) as u16
@@ -85,6 +85,22 @@ fn case(input: &Input, ctx: &mut Ctx) -> CaseResult {
             other => viol!("Pid::try_from(0) returned {:?} instead of Err(ZeroPid)", other),
         }
         ensure!(Pid::default().value() != 0, "Pid::default() is 0");
+        // construction written the way application code writes it, from bare integer literals (whatever integer type the
+        // literal ends up with, it names an identifier of 1..=65535 or 0)
+        macro_rules! from_lit {
+            ($($n:literal),*) => {$(
+                match Pid::try_from($n) {
+                    Ok(x) => ensure!(x.value() as u64 == $n as u64 && $n != 0, "Pid::try_from({}) (a bare literal) gives Pid({})", $n, x.value()),
+                    Err(e) => ensure!($n == 0 && matches!(e, Error::ZeroPid), "Pid::try_from({}) (a bare literal) fails with {:?}", $n, e),
+                }
+                let r: Result<Pid, _> = $n.try_into();
+                match r {
+                    Ok(x) => ensure!(x.value() as u64 == $n as u64 && $n != 0, "{}.try_into() gives Pid({})", $n, x.value()),
+                    Err(e) => ensure!($n == 0 && matches!(e, Error::ZeroPid), "{}.try_into() fails with {:?}", $n, e),
+                }
+            )*};
+        }
+        from_lit!(0, 1, 2, 127, 128, 255, 256, 32767, 32768, 65534, 65535);
         // ... however often it is called (more often than there are identifiers), from this thread and from another one,
         // and what it returns takes part in the arithmetic like any other identifier
         let many = |who: &str| -> Result<(), String> {
